@@ -1,4 +1,5 @@
 import ConcVerif.Proof.DDAux
+import ConcVerif.Proof.DDLive
 /-! # C16 — DelayedDestructor destroys late, once, and never under its own lock
 
 Theorems over every reachable state of the model `ConcVerif.DD` (any number of threads, objects, calls,
@@ -302,5 +303,82 @@ acquisition is enabled -/
 example : ∃ s, Reachable true 0 1 s ∧ userLevel (s.stk 1) = true ∧ s.stk 1 ≠ [] ∧
     (step s 1 .callSize).isSome = true :=
   ⟨_, ⟨witnessTrace.take 14, rfl⟩, by decide, by decide, by decide⟩
+
+/-! ## Liveness: re-entrant calls never deadlock and every call returns — for every scheduler
+
+Environment events (`isEnv`, Proof/DDLive.lean) are the decisions of user code: `new` / `dup` / `drop` and the five
+calls, at script level, inside a callback or inside a payload destructor.  Every other event is a step of the
+library: lock, unlock, `try_lock_for` outcomes (a time-out ends the call), the start and the end of a callback,
+the start and the end of a payload destructor, sleeps, yields, returns.
+* `C16_terminates` (no livelock): an execution that makes no environment event from some point on cannot be infinite,
+  whatever the scheduler does: every library step lowers `5·|vec| + Σ_t srank (stk t)` (each stored element pays
+  for its selection, its callback and its destruction; the retry loops of `destroyObjects(delay)` and of the
+  container's destructor pay for their remaining rounds).
+* `C16_thread_cases`, `C16_progress`, `C16_stuck_all_returned` (no deadlock, also for calls made from inside a
+  callback or a payload destructor): every thread inside a call has an enabled library step, or waits in
+  `addObjectsToBeDestroyed` / `size` for the lock held by ANOTHER thread, which can release it.  Needs the stack
+  grammar (`Shape`), `HoldsL` and `DyP` (Proof/DDProg.lean, DDHold.lean, DDDying.lean, DDDyP.lean).
+  The only exception is a client error: `addObjectsToBeDestroyed(k)` in flight while no external reference to `k`
+  exists (the model counts external references per object, not per owner).
+Not covered: starvation of one caller by infinitely many calls of others under an unfair mutex. -/
+
+theorem C16_terminates (x : Live.Exec step) (N : Nat) (ts : List Tid) (hnd : ts.Nodup)
+    (hts : ∀ n, N ≤ n → x.who n ∈ ts) (hnc : ∀ n, N ≤ n → isEnv (x.ev n) = false) : False :=
+  Live.no_infinite_runG rankedG ts hnd x N trivial hts hnc
+
+/-- every library step lowers the potential `5·|vec| + srank (stk t)` seen from the stepping thread and leaves the
+stacks of the other threads alone -/
+theorem C16_step_lowers_potential {s s' : St} {t : Tid} {e : Ev} (h : step s t e = some s') (he : isEnv e = false) :
+    pot s' t < pot s t ∧ ∀ u, u ≠ t → s'.stk u = s.stk u :=
+  ⟨step_dec h he, fun _ hu => step_stk_other h hu⟩
+
+/-- every thread of a reachable state: outside every call, or a library step is enabled, or it waits in a blocking
+acquisition for the lock held by another thread, or the client error `Unowned` -/
+theorem C16_thread_cases {cb ns nt} {s : St} (h : Reachable cb ns nt s) (t : Tid) :
+    s.stk t = [] ∨ LibEnabled s t ∨ (Waiting s t ∧ ∃ u, s.lock = some u ∧ u ≠ t) ∨ Unowned s t :=
+  thread_cases (progInv_reachable h) t
+
+/-- user code running inside a callback or a payload destructor is never blocked by the library: the frame can end
+(`uce` / `pde`), and the nested calls it may make are accepted (`C16_reentrant_enabled`) -/
+theorem C16_user_code_can_return {s : St} {t : Tid} {rest : List Frame} :
+    (∀ sz ec cbs k todo, s.stk t = .dInCb sz ec cbs k todo :: rest → (step s t (.uce k)).isSome = true) ∧
+    (∀ k, s.stk t = .inDt k :: rest → (step s t (.pde k)).isSome = true) := by
+  refine ⟨fun sz ec cbs k todo h => ?_, fun k h => by simp [step, h]⟩
+  simp only [step, h, if_true]
+  split <;> rfl
+
+/-- deadlock-freedom: if some thread is inside a call, some thread has an enabled library step (the thread itself,
+or the holder of the lock it waits for) — unless the thread is the client error `Unowned` -/
+theorem C16_progress {cb ns nt} {s : St} (h : Reachable cb ns nt s) {t : Tid} (ht : s.stk t ≠ []) :
+    (∃ u, LibEnabled s u) ∨ Unowned s t := by
+  have hP := progInv_reachable h
+  rcases thread_cases hP t with h1 | h1 | ⟨_, u, hu, _⟩ | h1
+  · exact absurd h1 ht
+  · exact Or.inl ⟨t, h1⟩
+  · exact Or.inl ⟨u, holder_lib hP hu⟩
+  · exact Or.inr h1
+
+/-- a reachable state without enabled library step: every thread has returned from every call (nested ones
+included), except client errors `Unowned` -/
+theorem C16_stuck_all_returned {cb ns nt} {s : St} (h : Reachable cb ns nt s) (hstuck : ∀ u, ¬ LibEnabled s u)
+    (t : Tid) : s.stk t = [] ∨ Unowned s t := by
+  by_cases ht : s.stk t = []
+  · exact Or.inl ht
+  · rcases C16_progress h ht with ⟨u, hu⟩ | h1
+    · exact absurd hu (hstuck u)
+    · exact Or.inr h1
+
+/-- the object of a `dying` frame is pending and no two threads are about to destroy the same object -/
+theorem C16_dying_unique {cb ns nt} {s : St} (h : Reachable cb ns nt s) {t u : Tid} {k : ObjId} {r1 r2 : List Frame}
+    (ht : s.stk t = .dying k :: r1) (hu : s.stk u = .dying k :: r2) : k ∈ s.pend ∧ t = u :=
+  ⟨(progInv_reachable h).dyP.pend t k r1 ht, (progInv_reachable h).dyP.uniq t u k r1 r2 ht hu⟩
+
+/-- non-vacuity: in the witness run, inside the callback of object 1 (nested frame on the stack) the potential seen
+from thread 1 is positive, the thread has an enabled library step, and after the whole run nobody has one -/
+example : ∃ s, Reachable true 0 1 s ∧ userLevel (s.stk 1) = true ∧ s.stk 1 ≠ [] ∧ 0 < pot s 1 ∧ LibEnabled s 1 :=
+  ⟨_, ⟨witnessTrace.take 14, rfl⟩, by decide, by decide, by decide, ⟨.uce 1, rfl, by decide⟩⟩
+
+example : ∃ s, Reachable true 0 1 s ∧ s.stk 0 = [] ∧ s.stk 1 = [] ∧ pot s 0 = 0 ∧ pot s 1 = 0 :=
+  ⟨_, ⟨witnessTrace, rfl⟩, by decide, by decide, by decide, by decide⟩
 
 end ConcVerif.DD
